@@ -252,7 +252,7 @@ pub fn run(cfg: &RunCfg) -> Report {
             .iter()
             .enumerate()
             .map(|(i, t)| {
-                let p = work.join("src").join(format!("in{ii}x{i}.asn"));
+                let p = work.join("src").join(src_name(ii, i));
                 let _ = std::fs::write(&p, t);
                 p
             })
@@ -371,6 +371,12 @@ pub fn run(cfg: &RunCfg) -> Report {
     rep
 }
 
+/// source file names with characters that argument parsers like to give a meaning to: a path is a path
+fn src_name(ii: usize, i: usize) -> String {
+    let shapes = ["in{}x{}.asn", "in{},v{}.asn", "in {} x{}.asn", "in{}=x{}.asn", "ïn{}x{};b.asn1", "in{}x{}.asn"];
+    shapes[(ii + i) % shapes.len()].replacen("{}", &ii.to_string(), 1).replacen("{}", &i.to_string(), 1)
+}
+
 fn run_child(cmd: &mut Command) -> (i32, Vec<u8>, String) {
     match cmd.env_remove("CARGO").env_remove("CARGO_HOME").output() {
         Ok(o) => (o.status.code().unwrap_or(-1), o.stdout, String::from_utf8_lossy(&o.stderr).to_string()),
@@ -389,10 +395,15 @@ fn children(cfg: &RunCfg, rep: &mut Report, work: &Path, inputs: &[(Vec<String>,
     let probe = verif_root().join("harness/target/debug/probe");
     let mut rng = Rng::new(cfg.seed ^ 0xC11C);
     // (1) stdout mode of the library and of the CLI on -m files
-    for (ii, (texts, _)) in inputs.iter().enumerate() {
-        let paths: Vec<PathBuf> = (0..texts.len()).map(|i| work.join("src").join(format!("in{ii}x{i}.asn"))).collect();
+    for (ii, (texts, malformed)) in inputs.iter().enumerate() {
+        let paths: Vec<PathBuf> = (0..texts.len()).map(|i| work.join("src").join(src_name(ii, i))).collect();
         for ts in [false, true] {
             let expected = compile_b(ts, texts, &paths, SrcKind::PathIter, None).ok().and_then(|r| r.ok()).and_then(|x| x.0);
+            // vacuity guard: the well-formed inputs must compile from their files, or nothing below tests the Ok side
+            rep.count(if expected.is_some() { "child:library-returns-ok" } else { "child:library-returns-err" });
+            if !*malformed && expected.is_none() {
+                rep.harness_errors.push(format!("well-formed input {ii} does not compile from its files {:?}", paths));
+            }
             // library, OutputMode::Stdout, in a child
             let mut c = Command::new(&probe);
             c.arg("--compile-stdout");
@@ -583,6 +594,11 @@ fn macro_wrapping(cfg: &RunCfg, rep: &mut Report) {
     }
     snippets.push("Broken ::= SEQUENCE { a INTEGER,, }\n".into());
     snippets.push("Full DEFINITIONS EXPLICIT TAGS ::= BEGIN A ::= SEQUENCE { a [0] INTEGER } END".into());
+    // complete modules in every layout of the header: they are complete modules, whatever stands between `::=` and BEGIN
+    for gap in ["\n", "", "  ", "\t", "\r\n", " -- c\n", " /* c */ ", "\n\n    "] {
+        snippets.push(format!("Lay-Out DEFINITIONS EXPLICIT TAGS ::={gap}BEGIN\nA ::= SEQUENCE {{ a [0] INTEGER }}\nEND\n"));
+        snippets.push(format!("Lay-Out {{ iso(1) 2 3 }} DEFINITIONS AUTOMATIC TAGS EXTENSIBILITY IMPLIED ::={gap}BEGIN EXPORTS ALL; A ::= CHOICE {{ a NULL }} END"));
+    }
     let reqs: Vec<String> = snippets.iter().map(|s| format!("c20macro {}", hex(s))).collect();
     let ans = match run_driver(&reqs) {
         Ok(a) => a,
